@@ -103,36 +103,52 @@ def broken_variant_must_fail(ctx, tag, variant, invariant):
     ctx.extra.setdefault("broken_variants_rejected", []).append("%s violates %s" % (variant, invariant))
 
 
+def tlc_only(ctx, tag, H, modes, kinds, **kw):
+    """exhaustive TLC run of a configuration too large to dump and replay"""
+    cfg = os.path.join(vlib.BUILD, "C17_%s.cfg" % tag)
+    base = open(os.path.join(vlib.VERIF, "spec", "SharedFuture", "SharedFuture_base.cfg")).read()
+    vlib.write_cfg(cfg, base, constants(H, modes, kinds, **kw))
+    res = ctx.tlc("SharedFuture", "SharedFuture", cfg, tag, workers=4, timeout=3000)
+    try:
+        os.remove(cfg)
+    except OSError:
+        pass
+    if res.violation:
+        ctx.tlc_violation(res, "SharedFuture:" + tag)
+    return res
+
+
 def run(ctx):
     rp = vlib.compile_harness(os.path.join(vlib.VERIF, "harness/shared_future_replay.cpp"),
                               "shared_future_replay" + ("" if ctx.quick else "_asan"), sanitize=not ctx.quick)
-    env = None if ctx.quick else {"ASAN_OPTIONS": "detect_leaks=1:abort_on_error=0", "UBSAN_OPTIONS": "halt_on_error=1"}
+    env = None if ctx.quick else {"ASAN_OPTIONS": "detect_leaks=1", "UBSAN_OPTIONS": "halt_on_error=1:print_stacktrace=1"}
     h1, h2 = ["h1"], ["h1", "h2"]
     broken_variant_must_fail(ctx, "v1", "notracer", "AliveWhilePending")
     broken_variant_must_fail(ctx, "v2", "noreset", "AtEnd")
+    seq_must = ["LateInit", "NullPoll", "PrePload", "PreFence", "PreFinal", "PreDload", "Copy"]
     if ctx.quick:
         ctx.exhaustive = False
-        mp = 1500
-        # sequential + one handle thread against the resolver: every construction mode, every resolver kind
-        run_cfg(ctx, rp, "s1", h1, ALL_MODES, ALL_KINDS, co=h1, bl=h1, po=h1, copies=1, handles=2, max_paths=mp,
-                must=["LateInit", "NullPoll", "PrePload", "PreFence", "PreFinal", "PreDload", "Copy"])
-        run_cfg(ctx, rp, "s2", h1, ["fn", "late", "setval"], ["val", "drop"], cb=h1, bl=h1, copies=1, handles=2, max_paths=mp,
-                must=["BeginCb"])
+        # one handle thread against the resolver: every construction mode, every resolver kind (sampled paths)
+        run_cfg(ctx, rp, "s1", h1, ALL_MODES, ALL_KINDS, co=h1, bl=h1, po=h1, copies=1, handles=2, max_paths=2500, must=seq_must)
+        run_cfg(ctx, rp, "s2", h1, ["fn", "late", "setval"], ["val", "drop"], cb=h1, bl=h1, copies=1, handles=2, must=["BeginCb"])
         # two handle threads: drop of the last handle against the resolver's chain walk / tracer release
         kinds = [ALL_KINDS[ctx.seed % 4]]
-        run_cfg(ctx, rp, "c1", h2, ["fn"], kinds, co=["h1"], bl=["h2"], copies=1, handles=1, max_paths=mp, must=["Copy"])
-        run_cfg(ctx, rp, "c2", h2, ["retfut", "async"], ["val"], co=["h2"], po=["h1"], copies=1, handles=1, max_paths=mp)
-        run_cfg(ctx, rp, "c3", h2, ["fn"], ["val"], cb=["h1"], bl=["h2"], copies=2, handles=1, max_paths=mp)
+        run_cfg(ctx, rp, "c1", h2, ["fn"], kinds, co=["h1"], bl=["h2"], copies=1, handles=1, must=["Copy"])
+        run_cfg(ctx, rp, "c2", h2, ["retfut", "async"], ["val"], co=["h2"], po=["h1"], copies=1, handles=1)
+        run_cfg(ctx, rp, "c3", h2, ["fn"], ["val"], cb=["h1"], bl=["h2"], copies=2, handles=1)
     else:
-        run_cfg(ctx, rp, "s1", h1, ALL_MODES, ALL_KINDS, co=h1, bl=h1, cb=h1, po=h1, copies=2, handles=2, env=env,
-                must=["LateInit", "NullPoll", "PrePload", "PreFence", "PreFinal", "PreDload", "Copy", "BeginCb"])
-        for i, kind in enumerate(ALL_KINDS):
-            run_cfg(ctx, rp, "c1%s" % kind, h2, ["fn", "retfut"], [kind], co=["h1"], bl=["h2"], po=["h2"], copies=2, handles=2, env=env)
-        run_cfg(ctx, rp, "c2", h2, ["async", "late", "fnsync", "setval", "setexc", "asyncsync"], ["val", "dtor"], co=["h2"], bl=["h1"], copies=2, handles=2, env=env)
+        run_cfg(ctx, rp, "s1", h1, ALL_MODES, ALL_KINDS, co=h1, bl=h1, cb=h1, po=h1, copies=1, handles=2, env=env,
+                must=seq_must + ["BeginCb"])
+        for kind in ALL_KINDS:
+            run_cfg(ctx, rp, "c1" + kind, h2, ["fn", "retfut"], [kind], co=["h1"], bl=["h2"], po=["h2"], copies=2, handles=2, env=env)
+        run_cfg(ctx, rp, "c2", h2, ["async", "late", "fnsync", "setval", "setexc", "asyncsync"], ["val", "dtor"], co=["h2"], bl=["h1"],
+                copies=2, handles=2, env=env)
         run_cfg(ctx, rp, "c3", h2, ["fn", "retfut"], ["val", "drop"], cb=["h1"], bl=["h2"], co=["h2"], copies=2, handles=1, env=env)
         run_cfg(ctx, rp, "c4", h2, ["fn"], ["val", "exc"], co=h2, bl=h2, copies=1, handles=1, env=env)
         run_cfg(ctx, rp, "c5", h2, ["fn", "late"], ["val"], cb=h2, po=h2, copies=2, handles=2, env=env)
         run_cfg(ctx, rp, "t3", ["h1", "h2", "h3"], ["fn"], ["val"], co=["h2"], bl=["h3"], copies=2, handles=1, env=env)
+        # larger bounds, specification only
+        tlc_only(ctx, "big", h2, ["fn"], ["val"], co=h2, bl=h2, cb=[], po=h2, copies=2, handles=2)
     ctx.assume("compare_exchange_weak does not fail spuriously (x86-64 lock cmpxchg); weak CAS is executed as strong under the controlled scheduler")
     ctx.assume("std::shared_ptr reference counting (libstdc++ atomics, not instrumented) is thread safe by itself: copy / drop of a handle and the tracer's release are atomic inside a local step; sequentially consistent interleavings only (memory order is C03's subject)")
     ctx.assume("one resolver thread, one promise object; each handle thread makes each kind of call (co_await, wait(), callback subscribe, ready()/value()) at most once; bounds MaxCopies/MaxHandles per configuration")
